@@ -14,7 +14,7 @@ Tagged(kind, S) == {[kind |-> kind, c |-> x] : x \in S}
 AllClasses ==
        Tagged("rps", RpsClasses) \cup Tagged("sub", SubClasses) \cup Tagged("msg", MsgClasses)
   \cup Tagged("lis", ListenerClasses) \cup Tagged("dia", DialerClasses) \cup Tagged("pb", PbPlan)
-  \cup Tagged("kadpid", KadPeerIdClasses)
+  \cup Tagged("kadpid", KadPeerIdClasses) \cup Tagged("bsblk", BsBlockClasses)
   \cup Tagged("rt_kad", KadValues) \cup Tagged("rt_bitswap", BitswapValues)
   \cup Tagged("rt_mss", MssValues) \cup Tagged("rt_identify", IdentifyValues)
 
@@ -25,6 +25,7 @@ Expected(x) ==
     [] x.kind = "lis" -> ListenerVerdict(x.c)
     [] x.kind = "dia" -> DialerVerdict(x.c)
     [] x.kind = "kadpid" -> KadPeerIdVerdict(x.c)
+    [] x.kind = "bsblk" -> BsBlockVerdict(x.c)
     [] OTHER -> "ok"
 
 Init == phase = "init" /\ hist = <<>> /\ s = LdInit /\ cls = [kind |-> "none"]
@@ -52,7 +53,7 @@ TablesTotal ==
   phase = "cls" =>
     Expected(cls) \in {"ok", "not-enough-bytes", "decode-error", "overflow", "error", "end", "frame",
                        "header", "na", "ls", "protocol", "protocols", "pending", "accepted", "rejected",
-                       "not-ready", "succeeded", "usable", "dropped"}
+                       "not-ready", "succeeded", "usable", "dropped", "value"}
 \* every value the transcribed decoders accept lies in the domain of the consumer conversions
 DecodedValuesUsable == phase = "cls" /\ cls.kind = "kadpid" => AcceptedValuesUsable(cls.c)
 \* a negotiation never succeeds on a payload with an undecodable or truncated part
